@@ -408,10 +408,13 @@ class SharesManager(BaseManager):
         if parents:
             parent = parents[-1]
             children = parent.get_items_for_directory(directory_object)
-            directory_object.items |= children
+            directory_object.items |= self._rehome_items(children, directory_object)
             parent.items -= children
 
         self._shared_directories.append(directory_object)
+
+        if parents:
+            self.rebuild_term_map()
 
         self._event_bus.emit_sync(SharedDirectoryChangeEvent(directory_object))
 
@@ -492,9 +495,11 @@ class SharesManager(BaseManager):
         # directory
         if parents:
             parent = parents[-1]
-            parent.items |= shared_directory.items
+            parent.items |= self._rehome_items(shared_directory.items, parent)
 
-        self._cleanup_term_map()
+        # The items of the removed directory should no longer be found, even if
+        # something is still holding on to the removed directory
+        self.rebuild_term_map()
 
         self._event_bus.emit_sync(SharedDirectoryChangeEvent(shared_directory))
 
@@ -901,6 +906,27 @@ class SharesManager(BaseManager):
             if term not in self._term_map:
                 self._term_map[term] = WeakSet()
             self._term_map[term].add(item)
+
+    def _rehome_items(self, items: set[SharedItem], shared_directory: SharedDirectory) -> set[SharedItem]:
+        """Creates items belonging to the given ``shared_directory`` for the
+        passed ``items`` of another (parent or child) shared directory. An item
+        should always refer to the directory that holds it: the directory
+        determines for who the item is locked and what its remote path is
+        """
+        rehomed_items = set()
+        for item in items:
+            item_directory = os.path.dirname(item.get_absolute_path())
+            subdir = os.path.relpath(item_directory, shared_directory.absolute_path)
+            rehomed_item = SharedItem(
+                shared_directory,
+                '' if subdir == '.' else subdir,
+                item.filename,
+                item.modified
+            )
+            rehomed_item.attributes = item.attributes
+            rehomed_items.add(rehomed_item)
+
+        return rehomed_items
 
     def _cleanup_term_map(self):
         self._term_map = {
